@@ -240,7 +240,7 @@ pub fn run_in_child(desc: &RunDesc) -> ! {
     match desc.family.as_str() {
         "queue" => crate::fam_queue::run(desc),
         "list" => crate::fam_list::run(desc),
-        "chain" => crate::fam_chain::run(desc),
+        "chain" | "chain-stack" => crate::fam_chain::run(desc),
         _ => {
             if desc.cfg.align == 32 {
                 run_interp::<A32>(desc)
@@ -274,6 +274,7 @@ impl RunResult {
             Res::Violation => self.json.gets("signature").to_string(),
             Res::Crash(sig) => match self.json.get("panic_at").and_then(|x| x.as_str()) {
                 Some(at) => format!("{}/abort-after-panic/{}", self.json.gets("prop"), at),
+                None if !self.json.gets("crash_tag").is_empty() => format!("{}/crash/{}", self.json.gets("prop"), self.json.gets("crash_tag")),
                 None => format!("{}/crash/signal-{}", self.json.gets("prop"), sig),
             },
             Res::StepCap => format!("{}/step-cap", self.json.gets("prop")),
@@ -290,8 +291,75 @@ impl RunResult {
     }
 }
 
+/// Run the description in another build of the simulator (the `dev` profile binary: opt-level 0,
+/// what `cargo test` users get) and parse what it prints.
+fn exec_run(desc: &RunDesc, bin: &str) -> RunResult {
+    let dir = "/verif/target/tmp";
+    let _ = std::fs::create_dir_all(dir);
+    let path = format!("{}/runone-{}-{}.json", dir, std::process::id(), desc.seed);
+    let mut d = desc.clone();
+    if let J::Obj(m) = &mut d.params {
+        m.insert("profile".into(), J::Str("sim".into()));
+    }
+    let _ = std::fs::write(&path, d.to_json().to_string());
+    let out = std::process::Command::new(bin).arg("runone").arg(&path).output();
+    let _ = std::fs::remove_file(&path);
+    match out {
+        Ok(o) => {
+            let txt = String::from_utf8_lossy(&o.stdout);
+            match J::parse(txt.trim()) {
+                Ok(j) => {
+                    let res = match j.gets("res") {
+                        "ok" => Res::Ok,
+                        "violation" => Res::Violation,
+                        "stepcap" => Res::StepCap,
+                        "timeout" => Res::Timeout,
+                        "harness_error" => Res::HarnessError,
+                        _ => Res::Crash(j.geti("signal") as i32),
+                    };
+                    let mut json = j.get("json").cloned().unwrap_or(J::obj());
+                    json.put("crash_tag", desc.params.gets("crash_tag"));
+                    RunResult { res, json, sched: Vec::new(), buggify: Vec::new() }
+                }
+                Err(e) => RunResult { res: Res::HarnessError, json: J::obj().set("detail", format!("runone output unparsable: {}", e)), sched: Vec::new(), buggify: Vec::new() },
+            }
+        }
+        Err(e) => RunResult { res: Res::HarnessError, json: J::obj().set("detail", format!("cannot exec {}: {}", bin, e)), sched: Vec::new(), buggify: Vec::new() },
+    }
+}
+
+/// `circ-sim runone <file>`: run one description (forked) and print the result as JSON.
+pub fn runone(path: &str) -> i32 {
+    let Some(desc) = std::fs::read_to_string(path).ok().and_then(|t| J::parse(&t).ok()).and_then(|j| RunDesc::from_json(&j)) else { return 2 };
+    let r = fork_run(&desc);
+    let (res, sig) = match &r.res {
+        Res::Ok => ("ok", 0),
+        Res::Violation => ("violation", 0),
+        Res::StepCap => ("stepcap", 0),
+        Res::HarnessError => ("harness_error", 0),
+        Res::Timeout => ("timeout", 0),
+        Res::Crash(s) => ("crash", *s),
+    };
+    println!("{}", J::obj().set("res", res).set("signal", sig).set("json", r.json.clone()).to_string());
+    0
+}
+
+pub const DEV_BIN: &str = "/verif/target/debug/circ-sim";
+
 /// Parent side: fork a child for this run and collect what it reports.
 pub fn fork_run(desc: &RunDesc) -> RunResult {
+    if desc.params.gets("profile") == "dev" {
+        if std::path::Path::new(DEV_BIN).exists() {
+            return exec_run(desc, DEV_BIN);
+        }
+        // no dev build available: run in this build and say so
+        let mut d = desc.clone();
+        if let J::Obj(m) = &mut d.params {
+            m.insert("profile".into(), J::Str("sim".into()));
+            m.insert("dev_binary_missing".into(), J::Bool(true));
+        }
+        return fork_run(&d);
+    }
     shm::reset();
     unsafe {
         let pid = libc::fork();
@@ -352,6 +420,7 @@ pub fn fork_run(desc: &RunDesc) -> RunResult {
             json.put("panic_in_library", loc.contains("/repo/"));
         }
         json.put("detail", what);
+        json.put("crash_tag", desc.params.gets("crash_tag"));
         RunResult { res, json, sched, buggify }
     }
 }
